@@ -25,7 +25,7 @@ func fuzzFail(t *testing.T, spec report.Spec, c any, o report.Outcome) {
 // FuzzC06: bytes -> ring structure on the quarter pixel lattice of a 4x4 pixel window -> SnapPolygon.
 func FuzzC06(f *testing.F) {
 	f.Add([]byte{0, 2, 2, 6, 2, 6, 6, 2, 6})
-	f.Add([]byte{1, 2, 2, 6, 6, 2, 2, 6, 6, 2, 2, 10, 10, 6, 6, 10, 10})               // zig-zag between two centres
+	f.Add([]byte{1, 2, 2, 6, 6, 2, 2, 6, 6, 2, 2, 10, 10, 6, 6, 10, 10})                // zig-zag between two centres
 	f.Add([]byte{3, 2, 2, 6, 6, 10, 2, 6, 6, 2, 2, 255, 6, 6, 10, 10, 6, 10})           // two rings, back-track
 	f.Add([]byte{2, 0, 0, 16, 0, 16, 16, 0, 16, 255, 4, 4, 4, 8, 8, 8, 8, 4})           // shell with hole on pixel borders
 	f.Add([]byte{7, 2, 2, 6, 6, 2, 2, 6, 6, 2, 2, 6, 6, 10, 10, 6, 6, 10, 10, 6, 6, 2}) // repeated segments
